@@ -1612,6 +1612,30 @@ var corrOwn = map[string][]string{
 	"gcn3/ds/118": {"H_ds_read 8 true"}, "cdna3/ds/118": {"H_ds_read 8 true"},
 	"gcn3/ds/119": {"H_ds_read2 8"}, "cdna3/ds/119": {"H_ds_read2 8"},
 	"cdna3/ds/223": {"H_ds_write 16"}, "cdna3/ds/255": {"H_ds_read 16 true"},
+	// second round: f32 compares / class / GCN3 min-max on bit patterns (@A, @N = abs / neg fields of the decoded VOP3a word)
+	"gcn3/vopc/65": {"H_fcmp FLt 0 0 false"}, "gcn3/vopc/66": {"H_fcmp FEq 0 0 false"}, "gcn3/vopc/67": {"H_fcmp FLe 0 0 false"},
+	"gcn3/vopc/68": {"H_fcmp FGt 0 0 false"}, "gcn3/vopc/69": {"H_fcmp FLg 0 0 false"}, "gcn3/vopc/70": {"H_fcmp FGe 0 0 false"},
+	"gcn3/vopc/73": {"H_fcmp FNge 0 0 false"}, "gcn3/vopc/74": {"H_fcmp FNlg 0 0 false"}, "gcn3/vopc/75": {"H_fcmp FNgt 0 0 false"},
+	"gcn3/vopc/76": {"H_fcmp FNle 0 0 false"}, "gcn3/vopc/77": {"H_fcmp FNeq 0 0 false"}, "gcn3/vopc/78": {"H_fcmp FNlt 0 0 false"},
+	"cdna3/vopc/65": {"H_fcmp FLt 0 0 false"}, "cdna3/vopc/66": {"H_fcmp FEq 0 0 false"}, "cdna3/vopc/67": {"H_fcmp FLe 0 0 false"},
+	"cdna3/vopc/68": {"H_fcmp FGt 0 0 false"}, "cdna3/vopc/69": {"H_fcmp FLg 0 0 false"}, "cdna3/vopc/70": {"H_fcmp FGe 0 0 false"},
+	"cdna3/vopc/75": {"H_fcmp FNgt 0 0 false"}, "cdna3/vopc/78": {"H_fcmp FNlt 0 0 false"},
+	"gcn3/vop3a/65": {"H_fcmp FLt @A @N true"}, "gcn3/vop3a/68": {"H_fcmp FGt @A @N true"}, "gcn3/vop3a/77": {"H_fcmp FNeq @A @N true"},
+	"gcn3/vop3a/78": {"H_fcmp FNlt @A @N true"},
+	"cdna3/vop3a/65": {"H_fcmp FLt @A @N true"}, "cdna3/vop3a/67": {"H_fcmp FLe @A @N true"}, "cdna3/vop3a/68": {"H_fcmp FGt @A @N true"},
+	"cdna3/vop3a/70": {"H_fcmp FGe @A @N true"}, "cdna3/vop3a/78": {"H_fcmp FNlt @A @N true"},
+	"cdna3/vopc/16": {"H_fclass true 0 0 false"}, "cdna3/vop3a/16": {"H_fclass false @A @N true"}, "gcn3/vop2/10": {"H_fmin_gcn3"},
+	"gcn3/vop2/11": {"H_fmax_gcn3"},
+	"cdna3/vop2/10": {"H_fmin_cdna3"}, "cdna3/vop2/11": {"H_fmax_cdna3"},
+	"gcn3/vop1/28": {"H_ftrunc"}, "cdna3/vop1/28": {"H_ftrunc"},
+	"gcn3/vop3a/470": {"H_fmed3 @A @N"}, "cdna3/vop3a/470": {"H_fmed3 @A @N"},
+	"gcn3/vop1/16": {"H_cvt_f64_f32"}, "cdna3/vop1/16": {"H_cvt_f64_f32"},
+	"gcn3/vop3a/464": {"H_fmin3 @A @N"}, "cdna3/vop3a/464": {"H_fmin3 @A @N"},
+	"gcn3/vop3a/467": {"H_fmax3 @A @N"}, "cdna3/vop3a/467": {"H_fmax3 @A @N"},
+	"gcn3/vop1/5": {"H_cvt_f32_i32"}, "cdna3/vop1/5": {"H_cvt_f32_i32"},
+	"gcn3/vop1/6": {"H_cvt_f32_u32"}, "cdna3/vop1/6": {"H_cvt_f32_u32"},
+	"gcn3/vop1/17": {"H_cvt_f32_ubyte0"}, "cdna3/vop1/17": {"H_cvt_f32_ubyte0"},
+	"gcn3/vop1/4": {"H_cvt_f64_i32"}, "cdna3/vop1/4": {"H_cvt_f64_i32"}, "cdna3/vop1/22": {"H_cvt_f64_u32"},
 }
 
 // ... and the rows of the C03 builder's table coq/isa/ExecImplV.v (vdesc_of),
@@ -1652,9 +1676,56 @@ func corrIDs(h *Handler) (ids []string, fromV []bool) {
 	return
 }
 
+// coqTable renders the registration table as the Coq file coq/isa/LanesTable.v:
+// one entry per (implemented handler, Coq term); @A / @N become the parameters
+// of the entry (abs / neg fields of a VOP3a word).
+func coqTable(hs []*Handler) string {
+	fmts := map[string]string{"vop1": "F_VOP1", "vop2": "F_VOP2", "vopc": "F_VOPC", "vop3a": "F_VOP3A", "vop3b": "F_VOP3B", "ds": "F_DS", "flat": "F_FLAT"}
+	var b strings.Builder
+	b.WriteString("(** GENERATED by `build/bin/c06 --table` (harness/cmd/c06, maps corrOwn / corrV over the handlers\n" +
+		"    enumerated in the real ALUs); tools/checks/c06.py regenerates it on every run and fails when this\n" +
+		"    file differs.  One entry per implemented vector handler that has a per-lane function in\n" +
+		"    LanesCorr.v: ALU (true = cdna3), format, opcode, and the handler term as a function of the\n" +
+		"    abs / neg fields of the instruction word (ignored by all but the VOP3a float forms). *)\n" +
+		"From Coq Require Import List NArith ZArith.\nFrom VIsa Require Import Lanes LanesCorr.\nFrom VIsa Require IsaState.\n" +
+		"Import ListNotations.\nOpen Scope N_scope.\n\n" +
+		"Record tentry := mkT { t_cdna3 : bool; t_fmt : IsaState.format; t_op : N; t_h : N -> N -> hid }.\n\n" +
+		"Definition handler_table : list tentry := [\n")
+	first := true
+	for _, h := range hs {
+		if h.Scalar {
+			continue
+		}
+		ids, _ := corrIDs(h)
+		for _, id := range ids {
+			if !first {
+				b.WriteString(";\n")
+			}
+			first = false
+			fn := "fun _ _ => " + id
+			if strings.Contains(id, "@A") {
+				fn = "fun ab ng => " + strings.ReplaceAll(strings.ReplaceAll(id, "@A", "ab"), "@N", "ng")
+			}
+			fmt.Fprintf(&b, "  (* %s %s *) mkT %v IsaState.%s %d (%s)", h.ALU, h.Name, h.ALU == "cdna3", fmts[h.Fmt], h.Opcode, fn)
+		}
+	}
+	b.WriteString("\n].\n")
+	return b.String()
+}
+
 const corrLDS = 1024
 
 var corrMode bool
+
+// corrIdx: number of the correspondence case within its handler (selects the scheduled EXEC mask)
+var corrIdx int
+
+func isFloatHid(hid string) bool {
+	return (strings.HasPrefix(hid, "H_f") && !strings.HasPrefix(hid, "H_flat")) || strings.HasPrefix(hid, "H_cvt_")
+}
+
+// corrFloatCases: correspondence cases per float transcription (one per scheduled EXEC mask)
+const corrFloatCases = 6
 
 // genCorr: like genVector but restricted to the operand kinds the Coq model
 // of operand access covers (VGPR, SGPR, constants, VCC as mask) and with the
@@ -1662,7 +1733,14 @@ var corrMode bool
 func genCorr(h *Handler, hid string, r *vh.Rng) Spec {
 	corrMode = true
 	defer func() { corrMode = false }()
-	sp := genVector(h, r)
+	isF := isFloatHid(hid)
+	gen := func() Spec {
+		if isF { // float transcriptions: half of the cases from the special-value schedule (zeros, Infs, NaNs, denormals in neighbouring lanes)
+			return genVectorN(h, r, r.Intn(2*specialScheduled))
+		}
+		return genVector(h, r)
+	}
+	sp := gen()
 	sp.Corr = hid
 	for tries := 0; tries < 50; tries++ {
 		inst, err := decode(&sp)
@@ -1682,6 +1760,21 @@ func genCorr(h *Handler, hid string, r *vh.Rng) Spec {
 			}
 		}
 		if ok {
+			sp.Corr = strings.ReplaceAll(strings.ReplaceAll(hid, "@A", fmt.Sprint(inst.Abs)), "@N", fmt.Sprint(inst.Neg))
+			if isF { // scheduled EXEC masks: kept, lane 0 only, lane 63 only, none, all, all with holes
+				switch corrIdx % 6 {
+				case 1:
+					sp.Exec = 1
+				case 2:
+					sp.Exec = 1 << 63
+				case 3:
+					sp.Exec = 0
+				case 4:
+					sp.Exec = ^uint64(0)
+				case 5:
+					sp.Exec = ^uint64(0) &^ (1<<uint(r.Intn(64)) | 1<<uint(r.Intn(64)) | 3<<uint(r.Intn(62)))
+				}
+			}
 			if inst.FormatType == insts.DS || inst.FormatType == insts.FLAT {
 				sp.LDSSz = corrLDS // small LDS shipped to Coq; also switches the poison placement off
 				if r.Intn(3) == 0 {
@@ -1692,7 +1785,7 @@ func genCorr(h *Handler, hid string, r *vh.Rng) Spec {
 			}
 			return sp
 		}
-		sp = genVector(h, r)
+		sp = gen()
 		sp.Corr = hid
 	}
 	sp.Corr = ""
@@ -1800,8 +1893,17 @@ func main() {
 	out := flag.String("out", "", "output JSON file")
 	rep := flag.String("replay", "", "JSON file with specs to replay")
 	only := flag.String("only", "", "restrict to handlers whose alu/fmt/opcode key has this prefix")
+	table := flag.Bool("table", false, "print coq/isa/LanesTable.v (every implemented vector handler that has a per-lane function in Coq) and exit")
 	flag.Parse()
 	_ = math.Pi
+	if *table {
+		if t := coqTable(enumerate()); *out == "" {
+			os.Stdout.WriteString(t)
+		} else if err := os.WriteFile(*out, []byte(t), 0o644); err != nil {
+			panic(err)
+		}
+		return
+	}
 
 	var res Output
 	if *rep != "" {
@@ -1894,7 +1996,11 @@ func main() {
 				if fromV[k] {
 					cnt = *ncv
 				}
+				if isFloatHid(hid) && cnt < corrFloatCases {
+					cnt = corrFloatCases
+				}
 				for i := 0; i < cnt; i++ {
+					corrIdx = i
 					sp := genCorr(h, hid, hr.Fork())
 					if sp.Corr == "" {
 						continue
